@@ -36,3 +36,8 @@ def PKCS7Padding (rnd : Rand) (plain : Bytes) (blockSize : Int) : Res (Rand × B
     | (_, .fault) => .fault
   else .fault
 end Ike.GenExt
+
+namespace Ike.GenExt
+/-- `new(message.Proposal)` as package `security` sees it -/
+def Proposal_zero : Ike.Proposal := ⟨0, 0, [], [], [], [], [], []⟩
+end Ike.GenExt
